@@ -5,6 +5,7 @@ package c04
 
 import (
 	"fmt"
+	"os"
 	"strings"
 	"testing"
 
@@ -18,7 +19,8 @@ func TestCheck(t *testing.T) {
 	qbftsim.QuietLogs(t)
 	r.Rule("case = discrete-event simulation in virtual time of one instance of the real qbft.Run with a real production round timer (increasing / eager double linear / linear; attester, proposer, aggregator duties): n in 4..7, " +
 		"the set of faulty members is ENUMERATED over all subsets of size <= f (case index), each faulty member crashes at a PRNG broadcast index after reaching a PRNG recipient subset, never starts, stays silent or starts late; " +
-		"running members start within the shortest round timeout T1, have their proposals (some slightly late), every message latency is in [0, T1/3); " +
+		"running members start within the shortest round timeout T1, have their proposals (some slightly late), every message latency is in [0, T1/3); half of the attester cases run the compare flow (each member compares the proposal with its own value, held from the start); " +
+		"when the driver could arm them, gofail failpoints in a scratch copy of core/qbft delay the instance goroutine between starting the comparator and waiting for it (50 % of calls, 1 ms real time; virtual time is unaffected); " +
 		"oracle: a running member must decide before leaving round (its round at the last fault + n), and no honest message may be reported unjust; " +
 		"non-trivial = at least one fault took effect or a round change happened; distinct = (n, fault set, fault modes, decision rounds) hash")
 	r.Assume("liveness is restated as bounded progress in virtual time; the fake clock feeds the real RoundTimer implementations")
@@ -26,6 +28,8 @@ func TestCheck(t *testing.T) {
 	r.RacePkgs(false, "core/qbft", "core/consensus/timer")
 	r.Require("running_members_decided", 1000)
 	r.Require("faults_effective", 100)
+	r.Require("compare_calls", 500)
+	r.Set("failpoints_armed", os.Getenv("VERIF_FAILPOINTS"))
 
 	n := r.N(3000, 300000)
 	r.Cases(n, 0, func(c *kit.Case) {
@@ -54,6 +58,11 @@ func TestCheck(t *testing.T) {
 		}
 		r.Count(fmt.Sprintf("max_rounds_after_last_fault/%d", maxAfter), 1)
 		r.Count("timer/"+res.Meta.Timer, 1)
+		if res.Meta.CompareFlow {
+			r.Count("cases_with_compare_flow", 1)
+			r.Count("compare_calls", int64(res.Sim.Compares))
+			r.Count("compare_calls_that_waited_for_the_local_value", int64(res.Sim.CompareWaits))
+		}
 		if res.Sim.MaxRound > r.Counter("max_round") {
 			r.Count("max_round", res.Sim.MaxRound-r.Counter("max_round"))
 		}
